@@ -12,9 +12,9 @@ an earlier run left behind.  Proved for every history of runs, every input, ever
 * hash rows left by earlier runs never influence a run (`runOnce_hashes_irrelevant`);
 * re-ingesting adds back exactly the spans cleaning had removed (`reingest_nodes`).
 
-`rerun_same_answer_partial` — every later run returns the spans and shape classes of the first — is
-stated below as a `def … : Prop` and *not* proved here; it is what the correspondence runs (separate
-processes over one database file, compared with a fresh-database run) check.
+The answer clause — every later run returns the spans and shape classes of the first — is proved in
+`O2P/Props/C15Full.lean` (`rerun_same_answer`, `history_same_answer`); `rerun_same_answer_full` below is
+the statement in its original form, kept for reference.
 -/
 namespace O2P.Store
 
@@ -228,13 +228,13 @@ theorem runSpec_hashes_irrelevant (buffer : Int) (ing uq : Bool) (es : List Node
       | none => exact ⟨rfl, h2, by intro _ hh; simp at hh⟩
       | some s3 => exact ⟨rfl, ⟨rfl, rfl⟩, fun _ _ => rfl⟩
 
-/-! ### the full statement, not proved here -/
+/-! ### the full statement (proved, in a sharper form, in C15Full.lean) -/
 
 /-- every trace's parent references stay inside the trace or name a span that is stored nowhere -/
 def ParentLocal (ns : List Node) : Prop :=
   ∀ n ∈ ns, ∀ p, n.parent = some p → ∀ m ∈ ns, m.id = p → m.jobId = n.jobId
 
-/-- **C15 in full (statement only — checked by the correspondence runs, not yet a theorem)**: when the
+/-- **C15 in full (original statement; see `history_same_answer` for the theorem)**: when the
 first, ingesting run on an empty database succeeds, every later run — ingesting again or not, with any
 flags, any batch size — ends with the status a fresh run with the same unique flag has, and with the
 same spans and links, hence streams the same PV sequences and the same shape classes. -/
